@@ -187,6 +187,16 @@ GOODPAIRS = {
     "subcommands": [("top", ["1"]), ("cfg", ['{"top": 2}', '{"subcommand": "a"}', '{"a": {"x": 3}}', '{"b": {"y": [1]}}'])],
     "links": [("src", ["1", "5"]), ("m", ["SubA", '{"class_path": "SubA", "init_args": {"q": "z"}}']), ("hold.inner", ["SubA", "Base"]), ("hold.items", ['{"a": 1}', "null"]), ("cfg", ['{"src": 3}', "@D@/ok.yaml"])],
 }
+BADPAIRS = {
+    "misc": [("ty", ["a.b", "os.nonexistent", "os", "os.getcwd", FX + "Unrelated", "", ".", "a.", "1", "[1]"]), ("call", ["a.b", "os.nonexistent", "os", "1", FX + "Base", "{}"]), ("pr", ["@D@/missing.yaml", "@D@", "", "-"]),
+             ("pd", ["@D@/ok.yaml", "@D@/missing"]), ("lp", ['["@D@/missing.yaml"]', "@D@/missing.txt", "5"]), ("n2", ["1", "x"]), ("choice", ["z", ""])],
+    "classes": [("m", ["a.b", "os.nonexistent", "os.getcwd", FX + "Unrelated", FX + "CALLS", "", "5", "[]"]), ("m.class_path", ["a.b", "Unrelated", "", "5"]), ("m.init_args", ["5", "[1]", '{"zz": 1}']),
+                ("ms+", ["a.b", "5", '{"class_path": 1}']), ("h.init_args.inner", ["a.b", "5", "Unrelated"]), ("dm.k", ["a.b", "5"]), ("um", ["a.b", "x", "1.5"])],
+    "flat": [("i", ["x", "1.5", "", "[1]"]), ("li", ["x", "{}", "[x]"]), ("d", ["x", "[1]", '{"k": "x"}']), ("t", ["[1]", '[1, "a", 2]', "x"]), ("oe", ["purple", "1"]), ("cfg", ["@D@/missing.yaml", "@D@", "{", "5", "[]"])],
+    "groups": [("dc", ["5", "[1]", '{"zz": 1}', '{"inner": 5}']), ("dc.lst", ["5", "[5]", '[{"zz": 1}]']), ("dc.items", ["5", '{"k": 5}']), ("g.h.y", ["0", "-1", "x"]), ("dc.opt", ["5", '{"zz": 1}'])],
+    "subcommands": [("cfg", ['{"a": 5}', '{"a": null}', "? a", '{"b": {"c": 5}}', '{"subcommand": "zz"}', '{"b": {"sub2": "zz"}}', '{"a": {"m": "a.b"}}'])],
+    "links": [("tgt", ["1"]), ("m.init_args.p", ["1"]), ("src", ["x"]), ("hold.inner", ["a.b", "5"])],
+}
 GOODTAILS = {"subcommands": [["a"], ["a", "--x=2"], ["a", "--m=SubA"], ["b"], ["b", "--y=[1]"], ["b", "c"], ["b", "c", "--z={\"k\": 1}"], ["a", "--cfga", "{\"x\": 5}"], ["b", "--y+=2", "c", "--z.k=3"]],
              "groups": [["--req=r"]], "flat": [["7"], []], "classes": [[]], "misc": [[]], "links": [[]]}
 
@@ -255,6 +265,9 @@ def case_strategy():
                              ["-i", "3"], ["-zz"], ["--i"], ["--no-flag"], ["--flag=1"], ["--m.help"], ["--m.help", "SubA"], ["--m.help=" + FX + "SubB"], ["--m.help", "zz"], ["--ms.help", "SubA", "--zz"],
                              ["--h.help", FX + "Holder", "--h.init_args.inner.help", "SubA"], ["--version"], ["--print_shtab=bash"]]),
         )
+        badpair = st.sampled_from(BADPAIRS[shape]).flatmap(lambda kv: st.tuples(st.just(kv[0]), st.sampled_from(kv[1]), st.booleans())).map(
+            lambda t: [f"--{t[0]}={t[1]}"] if t[2] or t[1].startswith("-") or t[1] == "" else [f"--{t[0]}", t[1]])
+        item = st.one_of(item, item, badpair)  # ill-typed values aimed at the option they are ill-typed for
         wild = st.lists(item, min_size=0, max_size=5).map(lambda xs: [a for x in xs for a in x])
         good = good_argv(shape)
         # half of the command lines are well formed, a quarter well formed with one wild item spliced in, a quarter wild
@@ -304,8 +317,8 @@ def excluded(case):
     s = json.dumps(case["input"], default=repr)
     if "\\u0000" in s:
         return "NUL character (cannot occur on a command line or in the environment)"
-    if case["channel"] in ("argv", "env", "path") and __import__("re").search(r"\\ud[89ab][0-9a-f]{2}", s):
-        return "lone surrogate in argv / environment / path (the OS interfaces cannot carry it)"
+    if case["channel"] != "string" and __import__("re").search(r"\\ud[89ab][0-9a-f]{2}", s):
+        return "lone surrogate outside a config text (OS interfaces cannot carry it; in a config text it is handled, F36)"
     return None
 
 
